@@ -596,7 +596,9 @@ func newEngine(st *vstat.Stats, parsedW, acceptedW int, initReady bool, c21 bool
 	gOut := &out{blk: g, Digest: nextDigest('o', digest{}, g.id), Src: "genesis"}
 	gAcc := &acc{out: gOut, AccDigest: nextDigest('a', digest{}, g.id)}
 	ch := &recChain{rec: rec, idx: idx, genesis: g, genOut: gOut, genAcc: gAcc, initReady: initReady}
-	knownF19 := st.Known(findingF19)
+	// (the driver passes known findings per property: C21 shares the engine, so an entry
+	// with property C21 and id "C21-accept-parent-evicted" switches the same exclusion on)
+	knownF19 := st.Known(findingF19) || st.Known("C21-accept-parent-evicted")
 	if knownF19 && acceptedW < 2 {
 		// with a window of 1 the parent is evicted before the accepter can fetch it
 		st.Exclude(findingF19)
